@@ -140,6 +140,23 @@ def _(f, a):
     return f.assign.iloc[_key(a[0])](_fill(a[1]))
 
 
+@op('assign_iloc_array', lambda rng, s: [_rk(rng, s, kinds=('int', 'sl', 'all', 'list')), _ck(rng, s, kinds=('sl', 'all', 'list', 'int')), rng.choice(['fit', 'fit', 'fit', 'row2d', 'short'])])
+def _(f, a):
+    # an unlabelled array value: shaped like the selection ('fit'), a 2-D single row for an integer row key ('row2d'),
+    # or one element too short ('short') - an ill-shaped value must be refused (or accepted) whatever the block layout
+    sel = f.iloc[_key(a[0]), _key(a[1])]
+    shape = getattr(sel, 'shape', ())
+    size = int(np.prod(shape)) if shape else 1
+    base = np.arange(100, 100 + size)
+    if a[2] == 'fit' or not shape:
+        val = base.reshape(shape) if shape else 100
+    elif a[2] == 'row2d':
+        val = base.reshape((1,) + tuple(shape)) if len(shape) == 1 else base.reshape(shape)
+    else:
+        val = base[: max(size - 1, 0)]
+    return f.assign.iloc[_key(a[0]), _key(a[1])](val)
+
+
 @op('assign_getitem_series', lambda rng, s: [_ck(rng, s, kinds=('int',)), rng.randint(0, 3)])
 def _(f, a):
     import static_frame as sf
@@ -563,6 +580,8 @@ def classify_layout_difference(case, ra, rb):
         a, b = ra[1], rb[1]
         if a[0] == b[0] == 'Series' and sorted(zip(a[1], a[2])) == sorted(zip(b[1], b[2])):
             return 'F20'  # same (label, value) pairs, order depends on layout
+    if name == 'assign_iloc_array' and args[2] in ('row2d', 'short'):
+        return 'F73'  # an ill-shaped array value is refused, broadcast or mis-indexed depending on how the addressed columns are blocked
     overflow_one_side = sorted([ra[0], rb[0]]) == ['err', 'ok'] and 'OverflowError' in (ra[1] if ra[0] == 'err' else rb[1])
     if name == 'reduce' and args[0] in ('sum', 'prod', 'cumsum', 'cumprod') and (ra[0] == rb[0] == 'ok' or overflow_one_side) \
             and any(c['dt'] in ('int8', 'uint8', 'float32') for c in case['spec']['cols']):
